@@ -1,6 +1,6 @@
 (* Props_C20.v — property C20: ONLY theorem statements, each closed by [exact] of a lemma from
    C20_Proofs, followed by Print Assumptions. *)
-From Verif Require Import Base C20_Model C20_Proofs C20_Proofs2.
+From Verif Require Import Base C20_Model C20_Proofs C20_Proofs2 C20_Proofs3.
 Open Scope Z_scope.
 
 (* MigrateColumn leaves alone a column the dialect reports exactly as declared (same type text,
@@ -70,6 +70,29 @@ Theorem c20_reorder_topological : forall deps fuel names order,
   forall n, In n order -> forall d, In d (deps n) -> before d n order.
 Proof. exact reorder_topological. Qed.
 Print Assumptions c20_reorder_topological.
+
+(* the fuel is always enough: insertIntoOrderedList recurses at most as deep as the number of models
+   that HAVE dependencies, plus one - for every dependency relation, cyclic ones included, and every
+   list of requested models.  [K]: any list containing the models with dependencies. *)
+Theorem c20_reorder_total : forall deps K,
+  (forall n, deps n <> [] -> In n K) ->
+  forall names, reorder deps (S (length K)) names <> None.
+Proof. exact reorder_total. Qed.
+Print Assumptions c20_reorder_total.
+
+(* ... hence, for the very call the checker evaluates (dependencies as an association list, fuel =
+   its length + 1), ReorderModels DOES return an order, every requested model is in it and every
+   dependency comes first or lies on a cycle: no out-of-fuel case is left out *)
+Theorem c20_reorder_checked_call : forall dl names,
+  exists order, reorder (deps_of dl) (S (length dl)) names = Some order
+    /\ (forall n, In n names -> In n order)
+    /\ forall n, In n order -> forall d, In d (deps_of dl n) -> before d n order \/ reaches (deps_of dl) d n.
+Proof.
+  intros dl names. destruct (reorder (deps_of dl) (S (length dl)) names) as [order|] eqn:E.
+  - exists order. split; [reflexivity|]. exact (reorder_dependencies_first _ _ _ _ E).
+  - exfalso. exact (reorder_total_assoc dl names E).
+Qed.
+Print Assumptions c20_reorder_checked_call.
 
 Example c20_reorder_instance :
   let deps := fun n : string =>
